@@ -13,6 +13,14 @@ const (
 	keyWhileCache = "epoch-regress:while-cached:"             // + field
 )
 
+// causeDrop marks a pseudo snapshot in a plan: not a heartbeat but the admin request "drop region
+// R.ID from the cache" (RaftCluster.DropCacheRegion).
+const causeDrop = "admin-drop-cache-region"
+
+func dropOp(seq int, id uint64) *world.Snapshot {
+	return &world.Snapshot{Seq: seq, Step: seq, Cause: causeDrop, R: world.Region{ID: id}}
+}
+
 type finding struct {
 	Key    string
 	What   string
@@ -34,7 +42,7 @@ type expect struct {
 
 func (e *expect) stale() bool { return len(e.staleSame) > 0 || len(e.staleOver) > 0 }
 
-func classify(h *world.Snapshot, cached map[uint64]view) expect {
+func classify(h *world.Snapshot, cached map[uint64]view, sorted []view) expect {
 	var e expect
 	o, ok := cached[h.R.ID]
 	if !ok {
@@ -50,7 +58,7 @@ func classify(h *world.Snapshot, cached map[uint64]view) expect {
 			e.staleSame = append(e.staleSame, "term")
 		}
 	}
-	for _, v := range sortedViews(cached) {
+	for _, v := range sorted {
 		if overlap(h.R.Start, h.R.End, v.Start, v.End) && h.R.Version < v.Ver {
 			e.staleOver = append(e.staleOver, v.ID)
 		}
@@ -76,14 +84,12 @@ func structural(o *obs) []kw {
 			break
 		}
 	}
-	vs := sortedViews(o.ByID)
-brute:
-	for i := range vs {
-		for j := i + 1; j < len(vs); j++ {
-			if overlap(vs[i].Start, vs[i].End, vs[j].Start, vs[j].End) {
-				out = append(out, kw{"served-regions-overlap:id-index", fmt.Sprintf("regions %d %s and %d %s are served at the same time", vs[i].ID, vs[i].Range, vs[j].ID, vs[j].Range)})
-				break brute
-			}
+	vs := o.sorted()
+	// sorted by start key: if any two regions intersect, two neighbours do
+	for i := 1; i < len(vs); i++ {
+		if overlap(vs[i-1].Start, vs[i-1].End, vs[i].Start, vs[i].End) {
+			out = append(out, kw{"served-regions-overlap:id-index", fmt.Sprintf("regions %d %s and %d %s are served at the same time", vs[i-1].ID, vs[i-1].Range, vs[i].ID, vs[i].Range)})
+			break
 		}
 	}
 	if o.Count != len(o.Scan)+o.ScanNil {
@@ -187,11 +193,42 @@ func judgeSeqH(t target, plan []*world.Snapshot, wire bool, health func() error)
 	for id, v := range before.ByID {
 		last[id] = v
 	}
+	// (a) two successive observations of an id never go back
+	regress := func(i int, h *world.Snapshot, before, after *obs, add func(key, what string)) {
+		ids := make([]uint64, 0, len(after.ByID))
+		for id := range after.ByID {
+			ids = append(ids, id)
+		}
+		sort.Slice(ids, func(a, b int) bool { return ids[a] < ids[b] })
+		for _, id := range ids {
+			cur := after.ByID[id]
+			if prev, ok := last[id]; ok {
+				if f := regressFields(prev, cur); len(f) > 0 {
+					if _, cached := before.ByID[id]; cached {
+						add(keyWhileCache+f[0], fmt.Sprintf("region %d was served with v%d c%d t%d immediately before this delivery and is served with v%d c%d t%d after it (regressed: %v)", id, prev.Ver, prev.Conf, prev.Term, cur.Ver, cur.Conf, cur.Term, f))
+					} else {
+						st.add("readmitted_regressions", 1)
+						add(keyReadmitted, fmt.Sprintf("region %d was last served with v%d c%d t%d %s, was then displaced (or dropped) from the cache, and is now served again with v%d c%d t%d %s (regressed: %v): PD forgot the epoch of the displaced id and re-admitted a stale heartbeat", id, prev.Ver, prev.Conf, prev.Term, prev.Range, cur.Ver, cur.Conf, cur.Term, cur.Range, f))
+					}
+				}
+			}
+			last[id] = cur
+		}
+	}
 	for i, h := range plan {
 		if len(out) >= 6 {
 			break
 		}
-		exp := classify(h, before.ByID)
+		isDrop := h.Cause == causeDrop
+		var exp expect
+		if !isDrop {
+			exp = classify(h, before.ByID, before.sorted())
+		}
+		var inj0 int64
+		fi, hasFaults := t.(interface{ FaultsInjected() int64 })
+		if hasFaults {
+			inj0 = fi.FaultsInjected()
+		}
 		var err error
 		var panicked interface{}
 		func() {
@@ -200,8 +237,18 @@ func judgeSeqH(t target, plan []*world.Snapshot, wire bool, health func() error)
 					panicked = p
 				}
 			}()
-			err = t.Deliver(h)
+			if isDrop {
+				t.Drop(h.R.ID)
+			} else {
+				err = t.Deliver(h)
+			}
 		}()
+		// a storage write of this delivery failed (injected): the storage clauses of the statement
+		// speak of heartbeats handled one at a time, not of failing stores; they are skipped for it
+		faulted := hasFaults && fi.FaultsInjected() > inj0
+		if faulted {
+			st.add("deliveries_with_storage_fault", 1)
+		}
 		after := t.Observe()
 		if health != nil {
 			if err := health(); err != nil {
@@ -216,11 +263,37 @@ func judgeSeqH(t target, plan []*world.Snapshot, wire bool, health func() error)
 			before = after
 			continue
 		}
-		st.add("deliveries", 1)
+		if rv, ok := t.(interface{ VerifyRetained() []string }); ok && (i%64 == 63 || i == len(plan)-1) {
+			for _, m := range rv.VerifyRetained() {
+				add("served-object-mutated-in-place", "a region object handed out by the cache earlier was modified in place (long-lived consumers hold such objects): "+m)
+			}
+		}
 		// (c)
 		for _, x := range structural(after) {
 			add(x.key, x.what)
 		}
+		if isDrop {
+			st.add("admin_drops", 1)
+			if _, was := before.ByID[h.R.ID]; was {
+				st.add("admin_drops_of_cached_region", 1)
+			}
+			// outside the statement (counted): the dropped id is gone, nothing else changed
+			for _, v := range before.sorted() {
+				a, ok := after.ByID[v.ID]
+				if v.ID == h.R.ID {
+					if ok {
+						st.add("dropped_region_still_served", 1)
+					}
+				} else if !ok || a.Full != v.Full {
+					st.add("unrelated_region_changed", 1)
+				}
+			}
+			st.outcome = append(st.outcome, 'd')
+			regress(i, h, before, after, add)
+			before = after
+			continue
+		}
+		st.add("deliveries", 1)
 		servedSame := sameServed(before.ByID, after.ByID)
 		storedSame := sameStored(before.Stored, after.Stored)
 		var oc byte
@@ -251,7 +324,7 @@ func judgeSeqH(t target, plan []*world.Snapshot, wire bool, health func() error)
 					st.add("stale_accepted_changed_served", 1)
 				}
 			}
-			if !storedSame {
+			if !storedSame && !faulted {
 				if err != nil {
 					add("stale-heartbeat-changed-state:stored", "the heartbeat is "+detail+", was rejected, yet the stored region set changed")
 				} else {
@@ -270,7 +343,7 @@ func judgeSeqH(t target, plan []*world.Snapshot, wire bool, health func() error)
 			st.add("accepted", 1)
 			// (d) every cached region of another id that the accepted heartbeat overlaps is gone
 			evicted := 0
-			for _, v := range sortedViews(before.ByID) {
+			for _, v := range before.sorted() {
 				if v.ID == h.R.ID || !overlap(h.R.Start, h.R.End, v.Start, v.End) {
 					continue
 				}
@@ -280,7 +353,9 @@ func judgeSeqH(t target, plan []*world.Snapshot, wire bool, health func() error)
 				} else if g := t.Get(v.ID); g != nil {
 					add("displaced-region-still-served", fmt.Sprintf("accepted; cached region %d %s v%d of another id overlaps it and is still returned by a lookup by id", v.ID, v.Range, v.Ver))
 				}
-				if _, still := after.Stored[v.ID]; still || t.Loadable(v.ID) {
+				if faulted {
+					st.add("skipped_stored_clause_under_fault", 1)
+				} else if _, still := after.Stored[v.ID]; still || t.Loadable(v.ID) {
 					add("displaced-region-still-stored", fmt.Sprintf("accepted (heartbeats handled one at a time); displaced region %d %s is still loadable from storage", v.ID, v.Range))
 				}
 			}
@@ -312,7 +387,7 @@ func judgeSeqH(t target, plan []*world.Snapshot, wire bool, health func() error)
 					}
 					add("accepted-newer-not-reflected:by-key", fmt.Sprintf("accepted but a lookup of its start key returns %s, expected %s", got, want.Full))
 				}
-				if _, ok := after.Stored[h.R.ID]; !ok {
+				if _, ok := after.Stored[h.R.ID]; !ok && !faulted {
 					st.add("accepted_new_epoch_not_stored", 1)
 				}
 				switch {
@@ -328,7 +403,7 @@ func judgeSeqH(t target, plan []*world.Snapshot, wire bool, health func() error)
 				st.add("accepted_same_epoch", 1)
 			}
 			// changes outside {the id, the displaced ones}: not in the statement, counted only
-			for _, v := range sortedViews(before.ByID) {
+			for _, v := range before.sorted() {
 				if v.ID == h.R.ID || overlap(h.R.Start, h.R.End, v.Start, v.End) {
 					continue
 				}
@@ -338,26 +413,7 @@ func judgeSeqH(t target, plan []*world.Snapshot, wire bool, health func() error)
 			}
 		}
 		st.outcome = append(st.outcome, oc)
-		// (a) two successive observations of an id never go back
-		ids := make([]uint64, 0, len(after.ByID))
-		for id := range after.ByID {
-			ids = append(ids, id)
-		}
-		sort.Slice(ids, func(a, b int) bool { return ids[a] < ids[b] })
-		for _, id := range ids {
-			cur := after.ByID[id]
-			if prev, ok := last[id]; ok {
-				if f := regressFields(prev, cur); len(f) > 0 {
-					if _, cached := before.ByID[id]; cached {
-						add(keyWhileCache+f[0], fmt.Sprintf("region %d was served with v%d c%d t%d immediately before this delivery and is served with v%d c%d t%d after it (regressed: %v)", id, prev.Ver, prev.Conf, prev.Term, cur.Ver, cur.Conf, cur.Term, f))
-					} else {
-						st.add("readmitted_regressions", 1)
-						add(keyReadmitted, fmt.Sprintf("region %d was last served with v%d c%d t%d %s, was then displaced from the cache, and is now served again with v%d c%d t%d %s (regressed: %v): PD forgot the epoch of the displaced id and re-admitted a stale heartbeat", id, prev.Ver, prev.Conf, prev.Term, prev.Range, cur.Ver, cur.Conf, cur.Term, cur.Range, f))
-					}
-				}
-			}
-			last[id] = cur
-		}
+		regress(i, h, before, after, add)
 		before = after
 	}
 	return out, st, nil
